@@ -294,6 +294,10 @@ pub fn sweep_c18(seed: u64, exhaust_len: usize, sampled: u64) -> CompOutcome {
                 let mut stats = Stats::default();
                 let mut found: Vec<Found2> = vec![];
                 let run_case = |c: SourceCase, idx: u64, stats: &mut Stats, found: &mut Vec<Found2>| {
+                    crate::engine::tick();
+                    if idx % 4096 == 0 {
+                        crate::engine::tick();
+                    }
                     let (out, v) = eval_source_case(&c);
                     stats.evaluations += 1;
                     let short = matches!(&c.entropy, Entropy::Bytes(b) if b.len() < 8 * c.draws.len());
@@ -697,6 +701,9 @@ pub fn sweep_mutators(prop: &'static str, seed: u64, rounds: u64) -> CompOutcome
                             let c = MutCase { kind, unsafe_mode, input: val.clone(), rate, entropy: e.clone(), post_tail: None };
                             idx += 1;
                             stats.evaluations += 1;
+                            if idx % 256 == 0 {
+                                crate::engine::tick();
+                            }
                             let v = if prop == "C15" {
                                 eval_c15(&c)
                             } else {
